@@ -9,7 +9,7 @@ import build_fuzz
 
 TARGETS = {  # name: (runs quick, runs thorough, max_len)
     "der": (600000, 20000000, 96), "oid": (300000, 10000000, 64), "apdu": (300000, 10000000, 400), "str": (300000, 10000000, 64),
-    "params": (150000, 5000000, 400), "cvc": (100000, 3000000, 500), "bpki": (20000, 400000, 400), "sm": (150000, 5000000, 400)}
+    "params": (150000, 5000000, 1600), "cvc": (100000, 3000000, 1600), "bpki": (20000, 400000, 1600), "sm": (150000, 5000000, 700)}
 STD = ["1.2.112.0.2.0.34.101.45.3.1", "1.2.112.0.2.0.34.101.45.3.2", "1.2.112.0.2.0.34.101.45.3.3"]
 
 
@@ -23,6 +23,73 @@ def tl(tag, n):
 
 def der(tag, val):
     return tl(tag, len(val)) + val
+
+
+def tlv_tree(b):
+    """lenient TLV parse of a whole octet string -> list of nodes [tag octets, children | None, value]; None when b is not a TLV sequence"""
+    out = []
+    i = 0
+    while i < len(b):
+        j = i + 1
+        if b[i] & 0x1F == 0x1F:
+            while j < len(b) and b[j] & 0x80:
+                j += 1
+            j += 1
+        if j >= len(b):
+            return None
+        ln = b[j]; k = j + 1
+        if ln & 0x80:
+            nb = ln & 0x7F
+            if nb == 0 or nb > 4 or k + nb > len(b):
+                return None
+            ln = int.from_bytes(b[k:k + nb], "big"); k += nb
+        if k + ln > len(b):
+            return None
+        val = bytes(b[k:k + ln])
+        kids = tlv_tree(val) if (b[i] & 0x20 and val) else None
+        out.append([bytes(b[i:j]), kids, val])
+        i = k + ln
+    return out
+
+
+def tlv_encode(nodes):
+    out = b""
+    for tag, kids, val in nodes:
+        v = tlv_encode(kids) if kids is not None else val
+        n = len(v)
+        out += tag + (bytes([n]) if n < 128 else bytes([0x80 | ((n.bit_length() + 7) // 8)]) + n.to_bytes((n.bit_length() + 7) // 8, "big")) + v
+    return out
+
+
+def resize_nested(b, rnd):
+    """an otherwise well-formed container in which one primitive field at any depth has another length (all enclosing lengths re-computed)"""
+    tree = tlv_tree(bytes(b))
+    if not tree:
+        return None
+    leaves = []
+
+    def walk(nodes):
+        for nd in nodes:
+            if nd[1] is None:
+                leaves.append(nd)
+            else:
+                walk(nd[1])
+    walk(tree)
+    if not leaves:
+        return None
+    nd = rnd.choice(leaves)
+    v = nd[2]
+    how = rnd.randrange(8)
+    if how == 0: v = b""
+    elif how == 1: v = v[:-1]
+    elif how == 2: v = v + bytes([rnd.randrange(256)])
+    elif how == 3: v = v + v
+    elif how == 4: v = (v or b"\x01") * (1 + 130 // max(1, len(v)))
+    elif how == 5: v = bytes(rnd.randrange(1, 256) for _ in range(rnd.choice([65, 97, 129, 257, 329, 400, 513, 1000])))
+    elif how == 6: v = b"\x00" + v
+    else: v = bytes([v[0] | 0x80]) + v[1:] if v else b"\x80"
+    nd[2] = v
+    return tlv_encode(tree)
 
 
 def seeds_and_mutants(x, rnd, n_mut):
@@ -93,9 +160,15 @@ def seeds_and_mutants(x, rnd, n_mut):
             continue
         for _ in range(n_mut if k != "bpki" else n_mut // 20):
             b = bytearray(rnd.choice(base))
-            op = rnd.randrange(12)
+            op = rnd.randrange(16)
             if not b:
                 b = bytearray(b"\x30\x00")
+            if op >= 12:                         # nested field resized inside a consistent container
+                r = resize_nested(b, rnd) if k in ("der", "params", "cvc", "bpki", "sm") else None
+                if r is not None:
+                    M[k].append(r)
+                    continue
+                op = rnd.randrange(12)
             if op == 0 and len(b) > 1:          # non-minimal length: short -> 0x81 form
                 i = 1 if (b[0] & 0x1F) != 0x1F else next((j + 1 for j in range(1, len(b)) if not b[j] & 0x80), 1)
                 if i < len(b) and b[i] < 128:
